@@ -28,9 +28,9 @@ int sb_add_node(int parent, uint8_t local, const uint8_t uid[7]) {
 }
 int sb_find(const uint8_t addr[4]) {
 	for (int i = 0; i < SB.nn; i++) if (!memcmp(SB.n[i].addr, addr, 4)) {
-		/* reachable only when it and all its ancestors are present */
-		int k = i; while (k >= 0) { if (!SB.n[k].present) return -1; k = SB.n[k].parent; }
-		return i;
+		/* reachable only when it and all its ancestors are present (an address may have been re-used) */
+		int k = i, ok = 1; while (k >= 0) { if (!SB.n[k].present) { ok = 0; break; } k = SB.n[k].parent; }
+		if (ok) return i;
 	}
 	return -1;
 }
